@@ -55,3 +55,92 @@ def compare_field(oracle, got, ref, tol, sel=None, what=""):
         idx = np.unravel_index(int(np.argmax(err)), err.shape)
         raise Violation(oracle + ".value", f"{what} max|field - Fraunhofer sum| = {e:.3e} > tol {tol:.3e} at {idx} "
                                            f"(peak {max_abs(ref):.3e})")
+
+
+# ---------------------------------------------------------------------------
+# wavefronts made of several partially overlapping output fields ("chips")
+
+@st.composite
+def chips_case(draw, tier="quick"):
+    """k >= 2 stripe segments, each with its own tilt, propagated onto small windows so that the
+    output wavefront holds several fields whose extents overlap partially, bridge, or are disjoint."""
+    k = draw(st.integers(2, 5))
+    n = draw(st.integers(2, 4)) * k
+    m = draw(st.integers(3, 8))
+    vertical = draw(st.booleans())
+    shape = (m, n) if vertical else (n, m)
+    labels = np.zeros(shape, dtype=int)
+    for j in range(k):
+        if vertical:
+            labels[:, j * (n // k):(j + 1) * (n // k)] = j + 1
+        else:
+            labels[j * (n // k):(j + 1) * (n // k), :] = j + 1
+    os_ = draw(st.integers(1, 2))
+    out_shape = (draw(st.integers(10, 16)), draw(st.integers(10, 16)))
+    win = (draw(st.integers(2, 5)), draw(st.integers(2, 5)))
+    # chip centres in output samples: drawn on a line or freely, spread comparable to the chip size
+    line = draw(st.booleans())
+    cen = []
+    for j in range(k):
+        a = draw(st.integers(-6, 6)) + draw(st.sampled_from([0.0, 0.25, 0.5]))
+        b = 0.0 if line else draw(st.integers(-6, 6)) + draw(st.sampled_from([0.0, 0.3]))
+        cen.append([a, b] if draw(st.booleans()) or not line else [a, b])
+    if line and draw(st.booleans()):
+        cen = [[c[1], c[0]] for c in cen]
+    seed = draw(st.integers(0, 2**31 - 1))
+    return {"labels": labels, "k": k, "oversample": os_, "out_shape": list(out_shape), "win": list(win),
+            "centres": cen, "seed": seed, "wavelength": 1e-6, "z": 2.0, "dx": 1e-3,
+            "du": [draw(st.sampled_from([5e-6, 8e-6])), draw(st.sampled_from([5e-6, 1e-5]))]}
+
+
+def build_chips(case):
+    """returns the propagated lentil wavefront for a chips_case"""
+    labels = case["labels"]
+    k = case["k"]
+    shape = labels.shape
+    wl, z, os_, dx, du = case["wavelength"], case["z"], case["oversample"], case["dx"], tuple(case["du"])
+    rng = np.random.default_rng(case["seed"])
+    amp = rng.uniform(0.5, 1.5, size=shape)
+    opd = np.zeros(shape)
+    r = (np.arange(shape[0]) - shape[0] // 2)[:, None] * dx
+    c = (np.arange(shape[1]) - shape[1] // 2)[None, :] * dx
+    for j in range(k):
+        s_r, s_c = case["centres"][j]
+        tx = s_r * du[0] / (z * os_)
+        ty = -s_c * du[1] / (z * os_)
+        opd = opd + (r * tx - c * ty) * (labels == j + 1)
+    opd = opd + 0.02 * wl * rng.normal(size=shape) * (labels > 0)
+    cube = np.stack([(labels == v).astype(int) for v in range(1, k + 1)])
+    p = lentil.Pupil(amplitude=amp, opd=opd, mask=cube, pixelscale=dx, focal_length=z)
+    p = p.fit_tilt(inplace=False)
+    w = lentil.Wavefront(wl) * p
+    return lentil.propagate_dft(w, pixelscale=du, shape=tuple(case["out_shape"]), prop_shape=tuple(case["win"]),
+                                oversample=os_)
+
+
+def chip_rects(out):
+    full = tuple(int(v) for v in out.shape)
+    rects = []
+    for f in out.data:
+        h, w = f.data.shape
+        r0 = full[0] // 2 + int(f.offset[0]) - h // 2
+        c0 = full[1] // 2 + int(f.offset[1]) - w // 2
+        rects.append((r0, r0 + h, c0, c0 + w))
+    return rects
+
+
+def rects_overlap(a, b):
+    return not (a[1] <= b[0] or b[1] <= a[0] or a[3] <= b[2] or b[3] <= a[2])
+
+
+def bridge_in_order(rects):
+    """an earlier pair of disjoint chips that a later chip overlaps both"""
+    n = len(rects)
+    for i in range(n):
+        for j in range(i + 1, n):
+            if rects_overlap(rects[i], rects[j]):
+                continue
+            for l in range(j + 1, n):
+                if rects_overlap(rects[l], rects[i]) and rects_overlap(rects[l], rects[j]):
+                    return True
+    return False
